@@ -83,8 +83,6 @@ class C08(Prop):
         if case["pty"] and obs["outcome"] == "ChildProcessError" and \
                 any(e[0] == "exit_kbd" for e in case["events"]):
             return "F-C08b"
-        if d and d[0] == "in" and obs["hang"]:
-            return "F-C08c"
         if d and cases.process_ends(case) and not obs["reaped"] and \
                 obs["outcome"] in ("ThreadException", "Failure"):
             return "F-C08d"
@@ -365,17 +363,20 @@ def real_findings(tier):
             f["finding"] = "F-C08b"
         fails.append(f)
 
-    # F-C08c: the stdin worker dies (text not encodable) while the command waits for input
+    # regression witness of the fixed F-C08c: the stdin worker dies (text not encodable) while the command
+    # waits for input; the joins of the output workers are bounded now
     evals += 1
-    r = rc.run_real("cat", hide=True, in_stream=io.StringIO("é"), encoding="ascii", bound=5)
-    if r["hang"] and r["outcome"] == "ThreadException" and "UnicodeEncodeError" in (r.get("thread_excs") or []):
-        fails.append({"case": {"cmd": "cat", "in_stream": "StringIO('\\u00e9')", "encoding": "ascii"},
-                      "finding": "F-C08c",
-                      "what": "stdin worker died with UnicodeEncodeError; run() still blocked after 5 s "
-                              "(join of the stdout worker has no timeout), ended only when the harness killed cat"})
-    elif r["hang"] or r["outcome"] != "ThreadException":
-        fails.append({"case": {"cmd": "cat", "encoding": "ascii"},
-                      "what": "outcome %s, hang %s, thread exceptions %s" % (r["outcome"], r["hang"], r.get("thread_excs"))})
+    r = rc.run_real("cat", hide=True, in_stream=io.StringIO("é"), encoding="ascii", bound=12)
+    if r["hang"] or r["outcome"] != "ThreadException" or r["elapsed"] > 8.0:
+        fails.append({"case": {"cmd": "cat", "in_stream": "StringIO('\u00e9')", "encoding": "ascii"},
+                      "what": "outcome %s after %.1fs (hang: %s, thread exceptions %s); expected ThreadException "
+                              "after about 2 s" % (r["outcome"], r["elapsed"], r["hang"], r.get("thread_excs"))})
+    if r.get("pid"):
+        try:
+            os.kill(r["pid"], 9)            # cat is still waiting for input
+        except OSError:
+            pass
+    r = None
 
     # F-C08e: disown=True with a pty: nobody closes the pty fd or waits for the child
     evals += 1
@@ -385,26 +386,42 @@ def real_findings(tier):
     time.sleep(0.1)
     z0 = set(rc.zombie_children())
     f0 = rc.fd_count()
-    pids = []
+    pids, fds_left = [], []
     for _ in range(6):
         r = rc.run_real("true", hide=True, in_stream=False, pty=True, disown=True, bound=15)
         pids.append(r.get("pid"))
-        r.pop("runner", None)
+        rn = r.pop("runner", None)
+        if rn is not None and hasattr(rn, "parent_fd"):
+            fds_left.append(rn.parent_fd)
+        rn = r = None
     time.sleep(0.5)
     gc.collect()
-    f1 = rc.fd_count()
-    z1 = [p for p in rc.zombie_children() if p not in z0]
+
+    def is_open(fd):
+        try:
+            os.fstat(fd)
+            return True
+        except OSError:
+            return False
+    leaked = [fd for fd in fds_left if is_open(fd)]
+    z1 = [p for p in rc.zombie_children() if p not in z0 and p in pids]
     for pid in z1:
         try:
             os.waitpid(pid, os.WNOHANG)
         except OSError:
             pass
-    if f1 >= f0 + 5 and len(z1) >= 5:
+    for fd in leaked:
+        try:
+            os.close(fd)
+        except OSError:
+            pass
+    if len(leaked) >= 5 and len(z1) >= 5:
         fails.append({"case": {"disown": True, "pty": True, "runs": 6}, "finding": "F-C08e",
-                      "what": "6 disowned pty runs: /proc/self/fd %d -> %d, %d new zombie children" % (f0, f1, len(z1))})
-    elif f1 > f0 + 1 or z1:
+                      "what": "6 disowned pty runs: %d pty descriptors still open, %d of the children zombies"
+                              % (len(leaked), len(z1))})
+    elif leaked or z1:
         fails.append({"case": {"disown": True, "pty": True, "runs": 6},
-                      "what": "fds %d -> %d, new zombies %d" % (f0, f1, len(z1))})
+                      "what": "pty descriptors left open %d, zombies %d" % (len(leaked), len(z1))})
 
     # F-C08f: pty=True while sys.stdout is a real file object that is not fd 1
     evals += 1
